@@ -671,7 +671,9 @@ struct __gmp_binary_divides
   }
   static void eval(mpz_ptr z, mpir_ui l, mpz_srcptr w)
   {
-    if (mpz_sgn(w) >= 0)
+    if (mpz_sgn(w) == 0)
+      mpz_tdiv_q(z, w, w);   /* raise the library's division by zero */
+    else if (mpz_sgn(w) >= 0)
       {
 	if (mpz_fits_ui_p(w))
 	  mpz_set_ui(z, l / mpz_get_ui(w));
@@ -705,7 +707,9 @@ struct __gmp_binary_divides
     if (mpz_fits_si_p(w))
       {
         mpir_si d = mpz_get_si(w);
-        if (d == -1)
+        if (d == 0)
+          mpz_tdiv_q(z, w, w);   /* raise the library's division by zero */
+        else if (d == -1)
           {
             /* l / -1 overflows (and traps) for the most negative l */
             mpz_set_si(z, l);
@@ -834,7 +838,9 @@ struct __gmp_binary_modulus
   { mpz_tdiv_r_ui(z, w, l); }
   static void eval(mpz_ptr z, mpir_ui l, mpz_srcptr w)
   {
-    if (mpz_sgn(w) >= 0)
+    if (mpz_sgn(w) == 0)
+      mpz_tdiv_r(z, w, w);   /* raise the library's division by zero */
+    else if (mpz_sgn(w) >= 0)
       {
 	if (mpz_fits_ui_p(w))
 	  mpz_set_ui(z, l % mpz_get_ui(w));
@@ -859,8 +865,11 @@ struct __gmp_binary_modulus
     if (mpz_fits_si_p(w))
       {
         mpir_si d = mpz_get_si(w);
-        /* l % -1 traps for the most negative l */
-        mpz_set_si(z, d == -1 ? 0 : l % d);
+        if (d == 0)
+          mpz_tdiv_r(z, w, w);   /* raise the library's division by zero */
+        else
+          /* l % -1 traps for the most negative l */
+          mpz_set_si(z, d == -1 ? 0 : l % d);
       }
     else
       {
